@@ -12,6 +12,7 @@
 //!                                       enc(None)=0 enc(Copy)=1 enc(Cmux(v,hi,lo)) = 2 + v + 2^16 hi + 2^32 lo
 //!   13000+op  ps=[] vs=[a.., b..]    -> [[table word for every pair]]
 //!   13100+op  ps=[n, sub_seed] vs=[] -> [[mismatch_count, first_a, first_b, first_got, first_expected]] vs native Rust op
+//!   13300+op  (op <= 10)             -> [[1]] after one real homomorphic evaluation (public test_suite::test_bdd_<op>) passed
 //!
 //! testing only: `VERIF_C13_SRC=<dir>` replaces the compiled tables by a textual parse of `<dir>/*_codegen.rs`.
 use poulpy_bin_fhe::bdd_arithmetic::{
@@ -618,6 +619,27 @@ fn run(r: &Rec) -> Vec<Vec<i128>> {
             let words = al.iter().zip(bl.iter()).map(|(a, b)| eval_u32(t, op == OP_IDENTITY, *a as u32, *b as u32) as i128).collect();
             vec![words]
         }
+        13301..=13310 => {
+            // one real homomorphic evaluation of the COMPILED circuit (key generation, encryption, circuit
+            // bootstrapping, eval_level with the real cmux, decryption) through the crate's public test suite:
+            // test_bdd_<op> asserts decrypt(op(enc a, enc b)) == word_op(a, b) on one random pair and panics otherwise.
+            // Ties the Cmux(hi, lo) orientation and the input-bit numbering of the model to the real evaluator.
+            use poulpy_bin_fhe::bdd_arithmetic::tests::test_suite as ts;
+            let ctx = fhe_ctx();
+            match op {
+                1 => ts::test_bdd_add(ctx),
+                2 => ts::test_bdd_sub(ctx),
+                3 => ts::test_bdd_sll(ctx),
+                4 => ts::test_bdd_srl(ctx),
+                5 => ts::test_bdd_sra(ctx),
+                6 => ts::test_bdd_slt(ctx),
+                7 => ts::test_bdd_sltu(ctx),
+                8 => ts::test_bdd_and(ctx),
+                9 => ts::test_bdd_or(ctx),
+                _ => ts::test_bdd_xor(ctx),
+            }
+            vec![vec![1]]
+        }
         13101..=13111 => {
             let t = table(op);
             let n = r.ps[0] as u64;
@@ -645,6 +667,11 @@ fn run(r: &Rec) -> Vec<Vec<i128>> {
         }
         _ => panic!("c13: unknown code {code}"),
     }
+}
+
+fn fhe_ctx() -> &'static poulpy_bin_fhe::bdd_arithmetic::tests::test_suite::TestContext<poulpy_bin_fhe::blind_rotation::CGGI, BE> {
+    static CTX: OnceLock<poulpy_bin_fhe::bdd_arithmetic::tests::test_suite::TestContext<poulpy_bin_fhe::blind_rotation::CGGI, BE>> = OnceLock::new();
+    CTX.get_or_init(poulpy_bin_fhe::bdd_arithmetic::tests::test_suite::TestContext::<poulpy_bin_fhe::blind_rotation::CGGI, BE>::new)
 }
 
 pub fn exec(r: &Rec) -> Out {
@@ -679,6 +706,9 @@ pub fn generate(tier: &str, seed: u64) -> Vec<Rec> {
             let sub_seed = rng.next();
             out.push(Rec::new(13100 + op, vec![*n, sub_seed as i128], vec![]));
         }
+    }
+    for op in 1..=10i64 {
+        out.push(Rec::new(13300 + op, vec![], vec![]));
     }
     // table dumps last: a failing eval record (concrete a, b) is reported before a failing table record
     for op in 1..=11i64 {
